@@ -173,18 +173,29 @@ func ruleWatchRecovers(c *core.Ctx) {
 		if !isD {
 			continue
 		}
-		fl, isL := ds.Call.Fun.(*ast.FuncLit)
-		if !isL {
+		// the deferred function: a literal, or a named function of the module (recover() works only when called
+		// directly by the deferred function itself)
+		var dbody *ast.BlockStmt
+		dinfo := info
+		if fl, isL := ds.Call.Fun.(*ast.FuncLit); isL {
+			dbody = fl.Body
+		} else if f := core.Callee(info, ds.Call); f != nil && core.InModule(f) {
+			if fd := c.Decl(f.Origin()); fd != nil {
+				dbody = fd.Body
+				dinfo = c.DeclPkg(fd).TypesInfo
+			}
+		}
+		if dbody == nil {
 			continue
 		}
-		// recover() directly in fl.Body (not inside a nested literal)
-		ast.Inspect(fl.Body, func(n ast.Node) bool {
+		// recover() directly in the deferred function's body (not inside a nested literal)
+		ast.Inspect(dbody, func(n ast.Node) bool {
 			if _, nested := n.(*ast.FuncLit); nested {
 				return false
 			}
 			if ce, isC := n.(*ast.CallExpr); isC {
 				if id, isI := ce.Fun.(*ast.Ident); isI && id.Name == "recover" {
-					if _, isB := info.Uses[id].(*types.Builtin); isB {
+					if _, isB := dinfo.Uses[id].(*types.Builtin); isB {
 						ok = true
 					}
 				}
